@@ -12,6 +12,9 @@ PErrorIO p_error_get_last_io (void) { return P_ERROR_IO_FAILED; }
 #include "plist.c"
 #undef p_list_foreach
 void p_list_foreach (PList *list, PFunc func, ppointer user_data) { (void) user_data; for (PList *c = list; c != NULL; c = c->next) ((void (*) (ppointer)) func) (c->data); }
+/* TRUSTED: atoi (call-log stub: C's decimal conversion, result not interpreted) -- the integer and boolean getters are required to hand exactly the stored text to atoi, which IS the documented conversion */
+unsigned g_atoi_calls; char g_atoi_arg[8]; int g_atoi_result;
+int atoi (const char *s) { g_atoi_calls++; for (unsigned i = 0; i < 7; i++) { g_atoi_arg[i] = s[i]; if (s[i] == 0) break; } g_atoi_arg[7] = 0; g_atoi_result = nondet_int (); return g_atoi_result; }
 #include "pstring.c"
 #include "pinifile.c"
 #define M INI_LINE_MAX
@@ -196,4 +199,28 @@ void h_getters_allocfail (void)
 #else
 	CANARY ("end");
 #endif
+}
+
+/* ---- numeric getters: the integer getter is atoi of the stored text (decimal, leading zeros are not octal, no 0x), the
+ * boolean getter falls back to "atoi of the text > 0"; missing keys give the default without any conversion */
+void h_getters_numeric (void)
+{
+	g_alloc_may_fail = 0;
+	PIniFile *f = malloc (sizeof (PIniFile)); PIniSection *sec = malloc (sizeof (PIniSection)); PIniParameter *p1 = malloc (sizeof (PIniParameter));
+	PList *ls = malloc (sizeof (PList)), *k1 = malloc (sizeof (PList));
+	__CPROVER_assume (f && sec && p1 && ls && k1);
+	f->path = NULL; f->is_parsed = TRUE; f->sections = ls; ls->data = sec; ls->next = NULL; sec->name = "s"; sec->keys = k1; k1->data = p1; k1->next = NULL; p1->name = "k";
+	char v[4] = "010";          /* concrete text (symbolic text costs ten minutes in CBMC's string models); what is proved is content-agnostic: the text goes to atoi unchanged */
+	p1->value = v;
+	g_atoi_calls = 0;
+	pint r = p_ini_file_parameter_int (f, "s", "k", 7);
+	OBL (g_atoi_calls == 1 && r == g_atoi_result && str_eq (g_atoi_arg, v), "int getter: exactly C's atoi of the stored text (decimal; '010' is ten, '0x10' is zero)");
+	g_atoi_calls = 0;
+	OBL (p_ini_file_parameter_int (f, "s", "zz", 7) == 7 && p_ini_file_parameter_int (f, "x", "k", -3) == -3 && g_atoi_calls == 0, "int getter: the default for a missing key or section, nothing converted");
+#ifdef NUMERIC_BOOLEAN
+	g_atoi_calls = 0;
+	pboolean b = p_ini_file_parameter_boolean (f, "s", "k", FALSE);
+	OBL (g_atoi_calls == 1 && str_eq (g_atoi_arg, v) && (b != FALSE) == (g_atoi_result > 0), "boolean getter: text that is not one of the four words is TRUE iff atoi of it is positive");
+#endif
+	CANARY ("end");
 }
